@@ -14,7 +14,7 @@ import (
 func init() {
 	Register(&Property{
 		ID: "C09",
-		Explanation: "Decides structural necessary conditions of expand: (R09.1) the recursion carries a guarded, strictly decreasing depth (termination certificate); (R09.2) the listing of a subject set is reached only through the not-yet-visited branch of the visited gate on that same subject, the context returned by the gate is the one handed to the recursive calls (one shared set per request), and the gate keys the set by an identity that reads namespace, object and relation; (R09.3) every child stored in the tree is the recursive result for, or a leaf carrying, the subject of a tuple taken from the listing of this node; (R09.4) the paging loop feeds the returned token into the next call and ends on the empty token; (R09.5) the depth continues from eff(request, global) as in check; (R09.7) the storage query behind the listing binds namespace, object and relation each to its own field under that field's non-nil guard, so a node's children are exactly the stored tuples of that subject set; (R09.6) with decrement c on the recursive edge and leaf guard depth<=k the tree has at most (d-k)/c+1 levels, which needs k>=c. " +
+		Explanation: "Decides structural necessary conditions of expand: (R09.1) the recursion carries a guarded, strictly decreasing depth (termination certificate); (R09.2) the listing of a subject set is reached only through the not-yet-visited branch of the visited gate on that same subject, the context returned by the gate is the one handed to the recursive calls (one shared set per request), and the gate keys the set by an identity that reads namespace, object and relation; (R09.3) every child stored in the tree is the recursive result for, or a leaf carrying, the subject of a tuple taken from the listing of this node; (R09.4) the paging loop feeds the returned token into the next call and ends on the empty token; (R09.5) the depth continues from eff(request, global) as in check; (R09.8) every error of a listing or of a recursive expansion escapes into the returned error on every path (a swallowed error renders an incomplete tree as complete); (R09.7) the storage query behind the listing binds namespace, object and relation each to its own field under that field's non-nil guard, so a node's children are exactly the stored tuples of that subject set; (R09.6) with decrement c on the recursive edge and leaf guard depth<=k the tree has at most (d-k)/c+1 levels, which needs k>=c. " +
 			"Not decided: completeness of the leaves with respect to check, equality of expand and check.",
 		Assumptions: []string{"relationship data reachable within the depth is finite; the store returns every page"},
 		Run:         runC09,
@@ -262,6 +262,8 @@ func runC09(c *Ctx) {
 		fmt.Sprintf("decrement %d per level with leaf guard depth <= %d: the tree can have more levels than the effective max-depth", dec, leafK))
 	// R09.7 the listing of a node matches exactly the namespace, object and relation of the subject set (the C04 predicate rules)
 	r.SubRun(func() { runC04(c) }, map[string]string{"R04.3": "R09.7", "R04.4": "R09.7"})
+	// R09.8 a failed listing below the root is reported, not rendered as a leaf (the C03 error discipline on expand)
+	r.SubRun(func() { runC03(c) }, map[string]string{"R03.1": "R09.8", "R03.5": "R09.8"})
 }
 
 // r092key: the visited gate keys the set by an identity that reads all three
